@@ -33,6 +33,7 @@ DATASET_PY = 'src/pharmpy/model/external/nonmem/dataset.py'
 WRITE_CSV_PY = 'src/pharmpy/modeling/write_csv.py'
 
 NPROC = 16
+ALSO_CAP = 300  # length of the 'also' list of a failing clause (tools/BOUNDED_GUIDE.md)
 
 # ======================================================================================
 # Part 1: dataset derivations (C14)
@@ -83,7 +84,46 @@ SCHEMAS = {
         model='ivoral', id='ID', cols=['EVID', 'CMT'], kinds=['o', 'd1', 'd2', 'R1']
     ),
     'admid_evid': dict(model='ivoral', id='ID', cols=['EVID', 'ADMID'], kinds=['o', 'd1', 'd2']),
+    # NM-TRAN time items: TIME is a text column (datatype nmtran-time) with clock times h:mm,
+    # optionally together with a date column (datatype nmtran-date): a day number or a calendar
+    # date in the order of the column name (DATE m/d/y, DAT1 d/m/y, DAT2 y/m/d, DAT3 y/d/m)
+    'clock': dict(model='iv', id='ID', cols=[], kinds=['o', 'd'], timefmt='clock'),
+    'daynum': dict(model='iv', id='ID', cols=[], kinds=['o', 'd'], timefmt='daynum',
+                   datecol='DATE'),
+    'date': dict(model='iv', id='ID', cols=[], kinds=['o', 'd'], timefmt='cal', datecol='DATE'),
+    'date_evid': dict(model='iv', id='ID', cols=['EVID'], kinds=['o', 'd', 'R'], timefmt='cal',
+                      datecol='DATE', small=True),
+    'dat1': dict(model='iv', id='ID', cols=[], kinds=['o', 'd'], timefmt='cal', datecol='DAT1',
+                 thorough=True),
+    'dat2': dict(model='iv', id='ID', cols=[], kinds=['o', 'd'], timefmt='cal', datecol='DAT2',
+                 thorough=True),
+    'dat3': dict(model='iv', id='ID', cols=[], kinds=['o', 'd'], timefmt='cal', datecol='DAT3',
+                 thorough=True),
 }
+
+# Rendering of the enumerated time t (0, 1, 2, ...) as NM-TRAN items.  The record walk works on
+# the elapsed hours; the items are written from the hours, never parsed back.
+#   clock : t -> 1.5 h steps, TIME h:mm
+#   daynum: t -> 12 h steps, DATE = day number (1, 1, 2, ...), TIME = 0:00 / 12:00
+#   cal   : t -> 12 h steps starting 2001-02-28 0:00 (crosses a month boundary of a non leap year)
+TIME_STEP = {'clock': 1.5, 'daynum': 12.0, 'cal': 12.0}
+_CAL_DAYS = [(2001, 2, 28), (2001, 3, 1), (2001, 3, 2), (2001, 3, 3)]
+_CAL_ORDER = {'DATE': 'mdy', 'DAT1': 'dmy', 'DAT2': 'ymd', 'DAT3': 'ydm'}
+
+
+def _time_items(timefmt, datecol, t):
+    """(elapsed hours, TIME item, DATE item or None) of the enumerated time t"""
+    hours = TIME_STEP[timefmt] * t
+    if timefmt == 'clock':
+        minutes = int(round(hours * 60))
+        return hours, f'{minutes // 60}:{minutes % 60:02d}', None
+    day, half = divmod(int(t), 2)
+    clock = '12:00' if half else '0:00'
+    if timefmt == 'daynum':
+        return hours, clock, str(day + 1)
+    y, m, d = _CAL_DAYS[day]
+    parts = {'y': str(y), 'm': str(m), 'd': str(d)}
+    return hours, clock, '/'.join(parts[k] for k in _CAL_ORDER[datecol])
 
 COLTYPES = {
     'TIME': ('idv', 'float64'),
@@ -100,6 +140,7 @@ COLTYPES = {
     'WGT': ('covariate', 'float64'),
     'AGE': ('covariate', 'float64'),
 }
+DEFAULT_AMTS = (50.0, 100.0)  # amounts of the dose records in even / odd file position
 
 _MODELS = {}
 
@@ -125,6 +166,8 @@ def _is_reset(kind):
 def _records(case):
     """Flat list of records (dicts) in file order with everything the reference needs"""
     sch = SCHEMAS[case['schema']]
+    amts = case.get('amts') or DEFAULT_AMTS
+    timefmt = sch.get('timefmt')
     recs = []
     gi = 0
     for pos, (idval, seq) in enumerate(zip(case['ids'], case['inds'])):
@@ -139,17 +182,23 @@ def _records(case):
             cmt = K.get('cmt', 2 if sch['model'] == 'ivoral' else 1)
             if dose and 'cmt' in K:
                 last_admid = K['cmt']  # ivoral: compartment n <-> admid n
+            if timefmt:
+                hours, time_item, date_item = _time_items(timefmt, sch.get('datecol'), t)
+            else:
+                hours, time_item, date_item = float(t), float(t), None
             rec = dict(
                 pos=pos,
                 idval=idval,
                 j=j,
                 row=gi - 1,
-                time=float(t),
+                time=hours,
+                time_item=time_item,
+                date_item=date_item,
                 kind=kind,
                 dose=dose,
                 evid=K['evid'],
                 rg=rg,
-                amt=(100.0 if gi % 2 else 50.0) if dose else 0.0,
+                amt=float(amts[gi % 2]) if dose else 0.0,
                 dv=10.0 + gi,
                 addl=K.get('addl', 0),
                 ii=1 if K.get('addl', 0) else 0,
@@ -162,69 +211,106 @@ def _records(case):
     return recs
 
 
+def _cov_patterns(n):
+    """Every way a covariate can change over the n records of an individual relative to its
+    first record (0 = value of the first record, 1 = another value), constant one excluded.
+    The first pattern is 0..01 (only the last record differs)."""
+    pats = [p for p in itertools.product((0, 1), repeat=n) if p[0] == 0 and any(p)]
+    pats.sort(key=lambda p: (p != (0,) * (n - 1) + (1,), p))
+    return pats
+
+
 def _build_df(case, cov='const'):
+    """The dataset of a case.  cov='const': the covariates WGT and AGE are constant within
+    every individual.  cov='first'/'last': in the first/last individual (if it has >=2 records)
+    AGE differs on the last record only and, for every other way of changing over the records
+    of that individual (e.g. 0,1,0: changes and returns to the value of the first record), there
+    is one more covariate column CV<pattern>.  Returns (frame, names of the time varying
+    covariates)."""
     sch = SCHEMAS[case['schema']]
     recs = _records(case)
     idname = sch['id']
     npos = len(case['ids'])
     nper = [len(s) for s in case['inds']]
-    data = {idname: [r['idval'] for r in recs], 'TIME': [r['time'] for r in recs]}
+    n = len(recs)
+    f8, i8 = np.float64, np.int64
+    data = {idname: np.array([r['idval'] for r in recs], dtype=i8)}
+    if sch.get('timefmt'):
+        data['TIME'] = [r['time_item'] for r in recs]
+        if sch.get('datecol'):
+            data[sch['datecol']] = [r['date_item'] for r in recs]
+    else:
+        data['TIME'] = np.array([r['time'] for r in recs], dtype=f8)
     if not sch.get('nodose'):
-        data['AMT'] = [r['amt'] for r in recs]
-    data['DV'] = [r['dv'] for r in recs]
+        data['AMT'] = np.array([r['amt'] for r in recs], dtype=f8)
+    data['DV'] = np.array([r['dv'] for r in recs], dtype=f8)
     for c in sch['cols']:
         if c == 'EVID':
-            data[c] = [r['evid'] for r in recs]
+            data[c] = np.array([r['evid'] for r in recs], dtype=i8)
         elif c == 'MDV':
-            data[c] = [r['mdv_in'] for r in recs]
+            data[c] = np.array([r['mdv_in'] for r in recs], dtype=i8)
         elif c == 'RATE':
-            data[c] = [0.0 for r in recs]
+            data[c] = np.zeros(n, dtype=f8)
         elif c == 'ADDL':
-            data[c] = [r['addl'] for r in recs]
+            data[c] = np.array([r['addl'] for r in recs], dtype=i8)
         elif c == 'II':
-            data[c] = [r['ii'] for r in recs]
+            data[c] = np.array([r['ii'] for r in recs], dtype=i8)
         elif c == 'SS':
-            data[c] = [r['ss'] for r in recs]
+            data[c] = np.array([r['ss'] for r in recs], dtype=i8)
         elif c == 'CMT':
-            data[c] = [r['cmt'] for r in recs]
+            data[c] = np.array([r['cmt'] for r in recs], dtype=i8)
         elif c == 'ADMID':
-            data[c] = [r['admid_in'] for r in recs]
-    data['WGT'] = [70.0 + r['pos'] for r in recs]
-    age = [30.0 + r['pos'] for r in recs]
-    varied = False
+            data[c] = np.array([r['admid_in'] for r in recs], dtype=i8)
+    data['WGT'] = np.array([70.0 + r['pos'] for r in recs], dtype=f8)
+    base = [30.0 + r['pos'] for r in recs]
+    varying = []
+    extra = {}
+    age = list(base)
     if cov in ('first', 'last'):
         p = 0 if cov == 'first' else npos - 1
         if nper[p] >= 2:
-            lastrow = max(r['row'] for r in recs if r['pos'] == p)
-            age[lastrow] += 1.0
-            varied = True
-    data['AGE'] = age
-    df = pd.DataFrame(data)
-    for c in df.columns:
-        if c == idname or COLTYPES.get(c, ('', ''))[1] == 'int32':
-            df[c] = df[c].astype('int64')
-        else:
-            df[c] = df[c].astype('float64')
-    return df, varied
+            rows = [r['row'] for r in recs if r['pos'] == p]
+            for k, pat in enumerate(_cov_patterns(nper[p])):
+                col = list(base)
+                for row, bit in zip(rows, pat):
+                    col[row] += float(bit)
+                if k == 0:
+                    age = col
+                    varying.append('AGE')
+                else:
+                    name = 'CV' + ''.join(str(b) for b in pat)
+                    extra[name] = col
+                    varying.append(name)
+    data['AGE'] = np.array(age, dtype=f8)
+    for name, col in extra.items():
+        data[name] = np.array(col, dtype=f8)
+    return pd.DataFrame(data), varying
 
 
 _DI_CACHE = {}
 
 
-def _build_di(df, idname):
-    key = (tuple(df.columns), idname)
+def _build_di(df, idname, schema=None):
+    sch = SCHEMAS.get(schema, {})
+    key = (tuple(df.columns), idname, sch.get('timefmt'))
     if key not in _DI_CACHE:
-        _DI_CACHE[key] = _build_di_uncached(df, idname)
+        _DI_CACHE[key] = _build_di_uncached(df, idname, sch)
     return _DI_CACHE[key]
 
 
-def _build_di_uncached(df, idname):
+def _build_di_uncached(df, idname, sch):
     from pharmpy.model import ColumnInfo, DataInfo
 
     cols = []
     for c in df.columns:
         if c == idname:
             cols.append(ColumnInfo.create(c, type='id', datatype='int32'))
+        elif c == 'TIME' and sch.get('timefmt'):
+            cols.append(ColumnInfo.create(c, type='idv', scale='ratio', datatype='nmtran-time'))
+        elif c == sch.get('datecol'):
+            cols.append(ColumnInfo.create(c, scale='interval', datatype='nmtran-date'))
+        elif c.startswith('CV'):
+            cols.append(ColumnInfo.create(c, type='covariate', datatype='float64'))
         else:
             tp, dt = COLTYPES[c]
             cols.append(ColumnInfo.create(c, type=tp, datatype=dt))
@@ -323,6 +409,8 @@ def _features(recs, expand):
         return ' (dataset with EVID 3/4 reset records)'
     if multi:
         return ' (several doses at the time of a non-dose record)'
+    if any(r['date_item'] is not None for r in recs):
+        return ' (dataset with NM-TRAN DATE and TIME columns)'
     return ''
 
 
@@ -387,8 +475,11 @@ def _reference(case):
 
 
 def _same_df(a, b):
+    """Same columns, index, dtypes and values (NaN equal to NaN)"""
     if not isinstance(a, pd.DataFrame):
         return False
+    if a is b:
+        return True
     if list(a.columns) != list(b.columns):
         return False
     if len(a) != len(b) or not a.index.equals(b.index):
@@ -399,7 +490,8 @@ def _same_df(a, b):
 
 
 def _same_values(a, b, cols):
-    """Same records, values and order for the given columns (dtype not compared)"""
+    """Same records, values and order for the given columns (dtype not compared); a text
+    column (NM-TRAN TIME / DATE items) must hold the same items"""
     if len(a) != len(b):
         return False
     if list(a.index) != list(b.index):
@@ -407,6 +499,12 @@ def _same_values(a, b, cols):
     for c in cols:
         if c not in a.columns:
             return False
+        if b[c].dtype.kind not in 'iufb':
+            if [str(v) for v in a[c].tolist()] != [str(v) for v in b[c].tolist()]:
+                return False
+            if a[c].dtype.kind in 'iufb':
+                return False
+            continue
         try:
             x = np.asarray(a[c].to_numpy(), dtype=float)
             y = np.asarray(b[c].to_numpy(), dtype=float)
@@ -441,13 +539,19 @@ def _series_is(ser, values, index=None, name=None):
     return True, ''
 
 
+RENDER = [True]  # workers switch the rendering of details off; the parent re-runs the
+#                   smallest failing case of every clause with rendering on
+
+
 class _Lazy:
-    """Text that is only rendered when a clause fails"""
+    """Text that is only rendered when a clause fails (and details are wanted)"""
 
     def __init__(self, *parts):
         self.parts = parts
 
     def __str__(self):
+        if not RENDER[0]:
+            return ''
         out = []
         for p in self.parts:
             out.append(p.to_string() if isinstance(p, pd.DataFrame) else str(p))
@@ -463,7 +567,7 @@ class _Ctx:
         self.fails = []  # (function name, clause, detail)
 
     def fail(self, fn, clause, detail):
-        self.fails.append((fn, clause, str(detail)[:600]))
+        self.fails.append((fn, clause, str(detail)[:600] if RENDER[0] else ''))
 
 
 DOCUMENTED_ERRORS = {
@@ -491,12 +595,14 @@ def _call(ctx, fname, df0, di, **kwargs):
         res = getattr(pm, fname)(model, **kwargs)
     except Exception as e:  # noqa: BLE001
         raised = e
-    if not _same_df(given, df0) or not _same_df(model.dataset, df0):
+    after = model.dataset
+    if not _same_df(given, df0) or (after is not given and not _same_df(after, df0)):
         ctx.fail(
             fname,
             "the input model's dataset is not modified",
             f'columns after the call {list(given.columns)}, before {list(df0.columns)}; '
-            f'data after\n{given.to_string()}',
+            f'dtypes after {[str(t) for t in given.dtypes]}, before '
+            f'{[str(t) for t in df0.dtypes]}; data after\n{_Lazy(given)}',
         )
     if raised is not None:
         documented = (
@@ -530,7 +636,7 @@ def _check_case(case):
     idname = sch['id']
     cols = sch['cols']
     df0, _ = _build_df(case)
-    di = _build_di(df0, idname)
+    di = _build_di(df0, idname, case['schema'])
     ref = _reference(case)
     recs = ref['recs']
     n = len(recs)
@@ -558,7 +664,8 @@ def _check_case(case):
 
     # ---- get_observations ----------------------------------------------------------
     obsrows = [i for i in rows if ref['obs'][i]]
-    exp_index = [(recs[i]['idval'], recs[i]['time']) for i in obsrows]
+    time_items = [r['time_item'] for r in recs]  # the TIME items as they stand in the dataset
+    exp_index = [(recs[i]['idval'], time_items[i]) for i in obsrows]
     exp_dv = [recs[i]['dv'] for i in obsrows]
     res, err = _call(ctx, 'get_observations', df0, di)
     if err is None:
@@ -623,7 +730,7 @@ def _check_case(case):
         ok, why = _series_is(
             res,
             [recs[i]['amt'] for i in doserows],
-            index=[(recs[i]['idval'], recs[i]['time']) for i in doserows],
+            index=[(recs[i]['idval'], time_items[i]) for i in doserows],
             name='AMT',
         )
         if not ok:
@@ -671,7 +778,7 @@ def _check_case(case):
                 ctx.fail(
                     'expand_additional_doses',
                     'without ADDL/II columns the dataset is returned unchanged',
-                    f'{d.to_string()}\n{desc}',
+                    f'{_Lazy(d)}\n{desc}',
                 )
             continue
         _check_expanded(ctx, df0, d, recs, flag, idname, desc)
@@ -711,24 +818,28 @@ def _check_case(case):
         _check_added(ctx, 'add_cmt', df0, di, res, 'CMT', 'compartment', ref['cmt'],
                      'CMT' in cols, desc, msuffix)
 
+    # ---- translate_nmtran_time -------------------------------------------------------
+    res, err = _call(ctx, 'translate_nmtran_time', df0, di)
+    if err is None:
+        _check_translated(ctx, df0, res, recs, sch, idname, desc)
+
     # ---- get_baselines / list_time_varying_covariates (covariate variants) ----------
     for cov in ('const', 'first', 'last'):
-        dfc, varied = _build_df(case, cov)
-        if cov != 'const' and not varied:
+        dfc, varying = _build_df(case, cov)
+        if cov != 'const' and not varying:
             continue
         if cov == 'last' and len(case['ids']) == 1:
             continue
-        dic = _build_di(dfc, idname)
+        dic = _build_di(dfc, idname, case['schema'])
         descc = _Lazy(dfc)
         res, err = _call(ctx, 'list_time_varying_covariates', dfc, dic)
         if err is None:
-            exp = ['AGE'] if varied else []
-            if not (isinstance(res, list) and res == exp):
+            if not (isinstance(res, list) and sorted(res) == sorted(varying)):
                 ctx.fail(
                     'list_time_varying_covariates',
                     'exactly the covariates with more than one value within some individual '
                     'are listed',
-                    f'got {res!r} expected {exp}\n{descc}',
+                    f'got {res!r} expected {varying}\n{descc}',
                 )
         res, err = _call(ctx, 'get_baselines', dfc, dic)
         if err is None:
@@ -760,6 +871,54 @@ def _check_case(case):
 
     nontrivial = any(r['dose'] for r in recs) and any(not r['dose'] for r in recs)
     return ctx.fails, nontrivial
+
+
+def _check_translated(ctx, df0, res, recs, sch, idname, desc):
+    """translate_nmtran_time: one TIME column in hours.  The origin of the time scale is not
+    specified; the elapsed time since the individual's first record is."""
+    from pharmpy.model import Model
+
+    fname = 'translate_nmtran_time'
+    if not isinstance(res, Model):
+        ctx.fail(fname, 'returns a model', repr(res))
+        return
+    d = res.dataset
+    if not sch.get('timefmt'):
+        if not _same_df(d, df0):
+            ctx.fail(fname, 'without NM-TRAN TIME/DATE items the dataset is returned unchanged',
+                     f'{_Lazy(d)}\n{desc}')
+        return
+    shown = _Lazy('result\n', d, '\ninput\n', desc)
+    keep = [c for c in df0.columns if c not in ('TIME', sch.get('datecol'))]
+    if not isinstance(d, pd.DataFrame) or 'TIME' not in d.columns or not _same_values(
+        d[[c for c in d.columns if c in keep]], df0, keep
+    ):
+        ctx.fail(fname, 'the records and the values of the other columns are kept in the '
+                 'original order', shown)
+        return
+    try:
+        got = [float(v) for v in d['TIME'].tolist()]
+    except (TypeError, ValueError):
+        got = None
+    if got is None or d['TIME'].dtype != np.float64:
+        ctx.fail(fname, 'the translated TIME column is numeric (float64)', shown)
+        return
+    first = {}
+    for r in recs:
+        first.setdefault(r['pos'], r['row'])
+    elapsed = [got[r['row']] - got[first[r['pos']]] for r in recs]
+    exp = [r['time'] - recs[first[r['pos']]]['time'] for r in recs]
+    if elapsed != exp:
+        ctx.fail(fname, "the translated TIME of a record minus that of the individual's first "
+                 'record is the elapsed time in hours given by the NM-TRAN DATE and TIME items',
+                 f'elapsed {elapsed} expected {exp}\n{shown}')
+    try:
+        dt = res.datainfo['TIME'].datatype
+    except Exception as e:  # noqa: BLE001
+        dt = repr(e)
+    if dt != 'float64':
+        ctx.fail(fname, 'the datainfo describes the translated TIME column as float64',
+                 f'datatype {dt}')
 
 
 def _check_independent(ctx, fname, case, df0, di, res, idname, desc):
@@ -807,7 +966,7 @@ def _check_added(ctx, fname, df0, di, res, col, coltype, expected, present, desc
     if present:
         if not _same_df(d, df0):
             ctx.fail(fname, f'an existing {col} column is kept and the dataset is unchanged',
-                     f'{d.to_string()}\n{desc}')
+                     f'{_Lazy(d)}\n{desc}')
         return
     if list(d.columns) != list(df0.columns) + [col]:
         ctx.fail(fname, f'exactly one column {col} is appended',
@@ -816,7 +975,7 @@ def _check_added(ctx, fname, df0, di, res, col, coltype, expected, present, desc
     rest = d[list(df0.columns)]
     if not _same_values(rest, df0, df0.columns):
         ctx.fail(fname, 'existing records and values are kept in the original order',
-                 f'{d.to_string()}\n{desc}')
+                 f'{_Lazy(d)}\n{desc}')
     elif list(rest.dtypes) != list(df0.dtypes):
         ctx.fail(fname, 'existing column dtypes are kept',
                  f'{dict(rest.dtypes)} before {dict(df0.dtypes)}')
@@ -969,7 +1128,7 @@ def _check_tad(ctx, df0, di, res, ref, desc):
         okdi = dires['TAD'].descriptor == 'time after dose'
         okdi = okdi and list(dires.names) == list(d.columns)
         okdi = okdi and all(dires[c] == di[c] for c in df0.columns)
-        why = repr(dires)
+        why = '' if okdi or not RENDER[0] else repr(dires)
     except Exception as e:  # noqa: BLE001
         okdi, why = False, f'{type(e).__name__}: {e}'
     if not okdi:
@@ -1017,14 +1176,43 @@ def _seqs(kinds, n, times):
                 yield [[t, k] for t, k in zip(ts, ks)]
 
 
+BASE_AMTS = [0.5, 100.0]  # even / odd file position: fractional and whole amounts alternate
+FRAC_AMTS = [0.25, 0.5]  # every amount below one unit
+WHOLE_AMTS = [50.0, 100.0]  # every amount a whole number
+
+
+def _has_dose(case):
+    if SCHEMAS[case['schema']].get('nodose'):
+        return False
+    return any(KINDS[k]['dose'] for s in case['inds'] for _, k in s)
+
+
 def _enumerate_cases(tier):
     """quick: one individual with <=3 records (<=2 in the 'small' schemas), TIME in {0,1,2};
     two individuals with <=3 records in total (<=2 in the small schemas), TIME in {0,1},
-    ids (3,7) and, when both have one record, also (7,3).  thorough: one more record."""
+    ids (3,7) and, when both have one record, also (7,3).  thorough: one more record.
+    The amounts of the dose records alternate 100 / 0.5 with the position of the record in the
+    file; quick: the one-individual datasets with <=2 records also with amounts 0.5 / 0.25 only,
+    thorough: every dataset also with amounts 0.5 / 0.25 only and 100 / 50 only."""
+    thorough = tier == 'thorough'
+    for case in _enumerate_shapes(tier):
+        case['amts'] = list(BASE_AMTS)
+        yield case
+        if not _has_dose(case):
+            continue
+        if thorough or (len(case['ids']) == 1 and _case_size(case) <= 2):
+            yield dict(case, amts=list(FRAC_AMTS))
+        if thorough:
+            yield dict(case, amts=list(WHOLE_AMTS))
+
+
+def _enumerate_shapes(tier):
     extra = 1 if tier == 'thorough' else 0
     t1 = (0, 1, 2)
     t2 = (0, 1)
     for name, sch in SCHEMAS.items():
+        if sch.get('thorough') and tier != 'thorough':
+            continue
         kinds = sch['kinds']
         small = 1 if sch.get('small') else 0
         nmax = 3 - small + extra
@@ -1057,6 +1245,7 @@ def _single_thread():
 def _work(chunk):
     warnings.filterwarnings('ignore')
     _single_thread()
+    RENDER[0] = False  # the details are rendered by the parent for the reported cases only
     out = []
     for idx, case in chunk:
         try:
@@ -1086,8 +1275,13 @@ def bounded_dataset_derivations(tier='quick'):
         _base_model(kind)  # built once, inherited by the forked workers
     cases = list(_enumerate_cases(tier))
     items = list(enumerate(cases))
-    results = _run_pool(_work, items, 40)
+    render = RENDER[0]
+    try:
+        results = _run_pool(_work, items, 40)
+    finally:
+        RENDER[0] = render  # a single chunk runs in this process
     best = {}
+    also = {}
     nontriv = 0
     for chunk in results:
         for idx, fails, nontrivial in chunk:
@@ -1095,30 +1289,52 @@ def bounded_dataset_derivations(tier='quick'):
                 nontriv += 1
             for fn, clause, detail in fails:
                 key = (fn, clause)
+                lst = also.setdefault(key, [])
+                if len(lst) < ALSO_CAP:
+                    lst.append({'case': cases[idx], 'fn': fn, 'clause': clause})
                 rank = (_case_size(cases[idx]), len(cases[idx]['ids']), idx)
                 if key not in best or rank < best[key][0]:
                     best[key] = (rank, idx, detail)
     fails = []
+    RENDER[0] = True
     for (fn, clause), (rank, idx, detail) in sorted(best.items()):
+        if fn != 'CHECKER':
+            # the workers do not render details: re-run the reported case
+            for fn2, clause2, detail2 in _check_case(cases[idx])[0]:
+                if (fn2, clause2) == (fn, clause):
+                    detail = detail2
+                    break
         fails.append(
             {
                 'fid': f'{DATA_PY}:{fn}',
                 'clause': clause,
                 'detail': detail,
                 'case': {'case': cases[idx], 'fn': fn, 'clause': clause},
+                'also': also[(fn, clause)][:ALSO_CAP],
                 'replay_fn': 'bounded_dataset_derivations_replay',
             }
         )
+    RENDER[0] = render
     extra = 1 if tier == 'thorough' else 0
+    nsch = len([1 for sch in SCHEMAS.values() if extra or not sch.get('thorough')])
     bound = (
         'all event datasets over %d column schemas (optional EVID/MDV/RATE/ADDL+II/SS/CMT/ADMID '
-        'columns, id column ID or SUBJ, one schema without dose column): one individual (id 3) '
-        'with <=%d records (<=%d in 2 near-duplicate schemas), TIME in {0,1,2} non-decreasing '
+        'columns, id column ID or SUBJ, one schema without dose column, TIME as number or as '
+        'NM-TRAN clock time h:mm alone / with a day number or calendar DATE column%s): one '
+        'individual (id 3) '
+        'with <=%d records (<=%d in 3 near-duplicate schemas), TIME in {0,1,2} (x1.5 h or x12 h '
+        'in the clock/date schemas) non-decreasing '
         'within a reset group (ties included), every record kind of the schema (observation, '
         'MDV=1 non-dose record, dose, dose with ADDL=1 II=1, SS dose, EVID 3, EVID 4, doses into '
         'compartment 1/2); two individuals (ids 3,7; also 7,3 when they have <=%d records in '
-        'total) with <=%d records in total, TIME in {0,1}; covariates constant / varying in the '
-        'first / last individual' % (len(SCHEMAS), 3 + extra, 2 + extra, 2 + extra, 3 + extra)
+        'total) with <=%d records in total, TIME in {0,1}; dose amounts alternating 100 / 0.5 '
+        'with the file position, %s; covariates constant / '
+        'changing within the first / last individual in every pattern over its records relative '
+        'to the first record (one covariate column per pattern, e.g. 0,0,1 / 0,1,0 / 0,1,1)'
+        % (nsch, ' (DATE, DAT1, DAT2, DAT3)' if extra else '', 3 + extra, 2 + extra,
+           2 + extra, 3 + extra,
+           'every dataset also with 0.5 / 0.25 only and with 100 / 50 only' if extra else
+           'one-individual datasets with <=2 records also with amounts 0.5 / 0.25 only')
     )
     samples = [repr(cases[i])[:200] for i in (0, len(cases) // 2, len(cases) - 1)]
     return {
